@@ -2463,25 +2463,25 @@ class EdgeQLSourceGenerator(codegen.SourceGenerator):
                 self.visit_list(commands, terminator=';')
                 self.new_lines = 1
 
-            from_clause = f'USING {node.code.language} '
-            code = ''
+            using = f'USING {node.code.language} '
 
+            # USING FUNCTION and USING <code> can be given together
             if node.code.from_function:
-                from_clause += 'FUNCTION'
-                code = self.generate_isolated_text(
-                    qlast.Constant.string(node.code.from_function))
-            elif node.code.from_cast:
-                from_clause += 'CAST'
+                self._write_keywords(using + 'FUNCTION ')
+                self.visit(qlast.Constant.string(node.code.from_function))
+                self.write(';')
+                self.new_lines = 1
+            if node.code.code:
+                self._write_keywords(using)
+                self.write(
+                    edgeql_quote.dollar_quote_literal(node.code.code), ';')
+                self.new_lines = 1
+            if node.code.from_cast:
+                self._write_keywords(using + 'CAST;')
+                self.new_lines = 1
             elif node.code.from_expr:
-                from_clause += 'EXPRESSION'
-            elif node.code.code:
-                code = edgeql_quote.dollar_quote_literal(node.code.code)
-
-            self._write_keywords(from_clause)
-            if code:
-                self.write(' ', code)
-            self.write(';')
-            self.new_lines = 1
+                self._write_keywords(using + 'EXPRESSION;')
+                self.new_lines = 1
 
             if node.allow_assignment:
                 self._write_keywords('ALLOW ASSIGNMENT;')
